@@ -271,11 +271,25 @@ def sumL (xs : List ρ) : ρ := xs.foldl (· + ·) 0
     `np.sum(np.log2(1 + sinrs))` -/
 def shannonSum (sinrs : List ρ) : ρ := sumL (sinrs.map (fun x => RFun.log2 (1 + x)))
 
+/-- `calc_shannon_sum_capacity` of an argument of ANY shape (scalar, 0-d, 1-D, `K × Ns`, column / row
+    vector, 3-D, nested lists, the per-user arrays `calc_SINR` returns): `np.sum` without an axis
+    reduces over EVERY entry, so the result is the sum over the flattened argument — one number -/
+def shannonSumNested (rows : List (List ρ)) : ρ := shannonSum rows.flatten
+
 /-- `calc_sum_capacity`: `np.sum(np.log2(1 + np.hstack(self.calc_SINR())))` -/
 def sumCapacity (s : Except PyErr (List (List ρ))) : Except PyErr ρ :=
   s.map (fun ss => shannonSum ss.flatten)
 
 end aggregate
+
+/-! ## index arguments -/
+
+/-- a receiver / transmitter / stream index handed to a public method (`calc_Q(k, …)`,
+    `calc_JP_Q(k, …)`, `get_Hkl(k, l)`, `get_Hk(k)`, the solver's `calc_Q(k)`): it is read through its
+    integer VALUE — Python `int`, numpy integer of any width or signedness, 0-d integer array are the same
+    index — and a value beyond the last user raises `IndexError` (`self.Nr[k]`) -/
+def indexArg (K : Nat) (k : Nat) : Except PyErr (Fin K) :=
+  if h : k < K then .ok ⟨k, h⟩ else .error .IndexError
 
 /-! ## the channel views the SINR code reads
 
